@@ -215,13 +215,37 @@ func c13Soak(c *Ctx, item *corpusItem) {
 	plush.CacheEnabled = false
 	t1, perr := plush.NewTemplate(src)
 	if perr != nil {
-		// parse errors must be the same error every time and on every path
-		for i := 0; i < 3; i++ {
-			_, e2 := plush.Parse(src)
-			if e2 == nil || e2.Error() != perr.Error() {
-				c.Fail("nondeterministic:parse-error", fmt.Sprintf("%s: parse error differs: %v vs %v", src, perr, e2), cas)
+		// a text that does not parse gives the same error every time and on every path: fresh parse,
+		// the template value that came back with the error, a clone of it, a Template literal, the cache
+		same := func(path string, out string, e2 error) {
+			if e2 == nil || e2.Error() != perr.Error() || out != "" {
+				c.Fail("nondeterministic:parse-error:"+path, fmt.Sprintf("%s: via %s got (%q, %v), the first parse gave the error %v", src, path, out, e2, perr), cas)
 			}
 		}
+		try := func(path string, f func() (string, error)) {
+			var e2 error
+			var out string
+			o := guarded(5*time.Second, func() (string, error) { out, e2 = f(); return out, e2 })
+			if o.Panic != "" || o.Hang {
+				c.Fail("nondeterministic:parse-error:crash:"+path, fmt.Sprintf("%s: via %s: panic %q hang %v; the first parse gave the error %v", src, path, o.Panic, o.Hang, perr), cas)
+				return
+			}
+			same(path, out, e2)
+		}
+		for i := 0; i < 2; i++ {
+			try("Parse", func() (string, error) { _, e := plush.Parse(src); return "", e })
+			if t1 != nil {
+				try("Exec of the returned template", func() (string, error) { return t1.Exec(plush.NewContext()) })
+				try("Exec of its clone", func() (string, error) { return t1.Clone().Exec(plush.NewContext()) })
+			}
+			lit := &plush.Template{Input: src}
+			try("Template literal, first Exec", func() (string, error) { return lit.Exec(plush.NewContext()) })
+			try("Template literal, second Exec", func() (string, error) { return lit.Exec(plush.NewContext()) })
+			plush.CacheEnabled = true
+			try("Render with the cache on", func() (string, error) { return plush.Render(src, plush.NewContext()) })
+			plush.CacheEnabled = false
+		}
+		c.Sample(map[string]interface{}{"program": src, "parse_error": perr.Error(), "paths": []string{"Parse x2", "Exec of returned template", "clone", "Template literal x2", "cached Render"}})
 		return
 	}
 	h0 := progHash(t1)
